@@ -718,6 +718,13 @@ class Context(MetadataContextMixin, object):
                 # traceback.print_exc()
                 state.is_error = True
                 state.exception = ee
+                # recorded like any other failure of the command: the error state names this query and this action
+                self.exception(
+                    message=str(ee),
+                    position=action.position,
+                    query=self.raw_query,
+                    traceback=traceback.format_exc(),
+                )
             except Exception as e:
                 traceback.print_exc()
                 state.is_error = True
